@@ -192,12 +192,8 @@ def _follow(body, local, fl, seen, depth):
             fl.kinds.add('other:' + kind)
 
 def ok_return_blocks(body):
-    out = []
-    for i, k, st in body.stmts():
-        if st['k'] == 'assign' and st['lhs'] == [0, []] and st['rv']['k'] == 'agg' and st['rv'].get('variant') == 'Ok' \
-                and 'Result' in st['rv'].get('adt', ''):
-            out.append(i)
-    return out
+    # a result handed on unchanged (`let r = inner.eval(args); ...; r`) is not a place where Ok is *made*
+    return value_sites(body, 'Ok', copies=False)
 
 def err_return_blocks(body):
     out = []
